@@ -26,6 +26,7 @@ import JubakoModel.Generated.FuncsOrder
 import JubakoModel.Generated.FuncsSearch
 import JubakoModel.Generated.FuncsView
 import JubakoModel.Generated.FuncsCheck
+import JubakoModel.Generated.FuncsLookup
 
 open Jubako
 
@@ -152,6 +153,13 @@ def main : IO Unit := do
       | some sp => ((Generated.propertyWrites sp).map (fun p => leBytes p.1 p.2)).flatten
       | none => [])
     (fun x => x.2.encode)
+  let optLists : List (List (Option Nat)) := [[], [none], [some 1], [none, some 2], [some 1, some 2], [none, none, some 3], [none, none]]
+  cmp1 "chainedLocate" optLists (fun l => Generated.chainedLocate l) (fun l => some (l.findSome? id))
+  let idLists : List (List Nat × Nat) := [([], 1), ([1], 1), ([2, 1], 1), ([1, 3, 2], 2), ([1, 2, 3], 4), ([3, 3], 3)]
+  cmp1 "manifestPackInfoById" idLists (fun x => Generated.manifestPackInfoById x.1 x.2) (fun x => x.1.find? (· == x.2))
+  let vl : List (List (Option Bool)) := [[], [none], [some true], [some false], [none, some false], [some true, none, some false, some true], [none, none, some true]]
+  let ccIn : List (Bool × Bool × List (Option Bool)) := [true, false].flatMap fun m => [true, false].flatMap fun d => vl.map fun v => (m, d, v)
+  cmp1 "containerCheck" ccIn (fun x => Generated.containerCheck x.1 x.2.1 x.2.2) (fun x => some (x.1 && x.2.1 && x.2.2.all (fun p => p.getD true)))
   cmp1 "packSizes" small
     (fun c => (Generated.contentPackSize c 64, Generated.directoryPackSize c 64, Generated.manifestPackSize c 64, Generated.containerPackSize c 64))
     (fun c => (c + 37 + 64, c + 37 + 64, c + 37 + 64, c + 5 + 64))
